@@ -191,7 +191,7 @@ def scan_trusted(out):
                 found.append("TRUSTED contract (body not verified, assumed): %s" % o[1]); continue
             found.append("%s @ %s" % (l.strip()[:110], ":".join(str(x) for x in o[:3])))
     if nlem[0]:
-        found.append("%d speclib lemma statements assumed in this unit (each proved in unit `speclib`, which every check runs)" % nlem[0])
+        found.append("%d speclib lemma statements assumed in this unit (each proved in its home unit: `speclib`, which every check runs, or `setops_lib` for speclib/setops.rs, which every set-operation check runs)" % nlem[0])
     if ncon:
         found.append("callee contracts assumed in this unit and proved in their home unit: " + ", ".join(sorted(set(ncon))))
     return found
